@@ -104,6 +104,10 @@ STATEMENTS = [
     'f = v => v + {N}; f({N})', 'f = (a, b) => a + b; f({N}, {N})', 'f = v => v + n; n = {N}; f(1)', 'f = v => {N}; g = v => f(v) + v; g({N})',
     'f = v => v * 2; map({LN}, f)', 'f = v => x; x = {N}; f(0)', 'f = x => x + 1; x = {N}; f(1) + x', 'f = v => {LN}; f(0)[{I}]',
     'x = {LN}; y = x; push(y, {N}); x', 'x = {D}; y = x; y["q"] = {N}; [x, y]', 'x = {LL}; y = x[{I}]; push(y, {N}); x',
+    # a callback that changes the dict it is mapped over
+    'x = ⟦"a": 1, "b": 2, "c": 3⟧; r = map(x, (k, v) => remove(x, "b")); x', 'x = ⟦"a": 1, "b": 2⟧; map(x, (k, v) => remove(x, "a")); [x, 1]',
+    'x = ⟦"a": [1], "b": [2]⟧; map(x, (k, v) => push(x["b"], {N})); x', 'x = ⟦"a": 1, "b": 2⟧; map(x, (k, v) => [__setitem__(x, "b", v + 10), v][1])',
+    'x = ⟦"a": 1, "b": 2⟧; map(x, (k, v) => [__setitem__(x, k + "z", v), 0][1]); x', 'x = {LN}; map(x, v => pop(x)); x',
     # one container occurring twice inside an assigned value stays ONE container in the copy
     'x = {LN}; y = [x, x]; y[0][0] = {N}; y', 'x = {LN}; y = ⟦"a": x, "b": x⟧; push(y["a"], {N}); [y, x]', 'x = [{LN}]; y = [x, [x]]; y[1][0][0][0] = 9; y',
     'x = {LL}; y = [x[0], x[0], x]; y[0][0] = {N}; y[2]', 'x = {LN}; z = [[x, x]]; z[0][1][0] += 1; z',
@@ -289,19 +293,38 @@ def parser():
     return _parser[0]
 
 
-def check_program(res, text, site):
+# host-supplied trees (ast_names): evaluated in the order given, each bound before the next is evaluated, then the program
+AST_CASES = [
+    ([('base', '20'), ('total', 'base + 1')], 'total + base'),
+    ([('inc', 'v0 = 1; v0 + n'), ('twice', 'inc * 2')], '[inc, twice, v0]'),
+    ([('n', 'n + 1'), ('m', 'n * 10')], '[n, m]'),
+    ([('f9', '5'), ('g9', 'f9 + u_undefined')], 'f9'),
+    ([('a1', 'len(l)'), ('a2', 'a1 + len(s)'), ('a3', '[a1, a2]')], 'a3'),
+    ([('k1', 'push(l, 7)'), ('k2', 'len(l)')], '[k2, l]'),
+    ([('s', 's + "!"'), ('t2', 's + "?"')], 't2'),
+]
+
+
+def check_program(res, text, site, ast=None):
     api = snapshot.api()
     m = refparse.parse(text)
     if m[0] != 'ok':
         res.count('generator_produced_unparsable_text')
         return
     tree = m[1]
+    if ast:
+        # one tree: the entries as assignments in front of the program would be a different program (statements yield None,
+        # assignments copy); the model evaluates each entry tree and binds its value, like eval() is documented to
+        trees = [(k, refparse.parse(src)[1]) for k, src in ast]
     for hname, spec in host_specs():
         res.count('programs')
         # ---- model
         mnames = {k: build_model(v) for k, v in spec.items()}
         mach = M.Machine(mnames, known_builtins=[k for k in api.FUNCTIONS])
         try:
+            if ast:
+                for k, t in trees:
+                    mnames[k] = mach.run(t)
             mv = mach.run(tree)
             mout = ('val', mv)
         except M.Undefined:
@@ -318,8 +341,9 @@ def check_program(res, text, site):
         rnames = {k: build_real(v) for k, v in spec.items()}
         cnt = Cnt()
         try:
+            kw = {'ast_names': {k: parser().parse(src) for k, src in ast}} if ast else {}
             with opwrap.traced(cnt):
-                rv = parser().eval(text, rnames, max_ops_evaluated=100000)
+                rv = parser().eval(text, rnames, max_ops_evaluated=100000, **kw)
             rout = ('val', rv)
         except api.ParserError as e:
             rout = ('PErr', str(e))
@@ -327,6 +351,8 @@ def check_program(res, text, site):
             rout = ('OtherErr', type(e).__name__, str(e))
         res.count('compared')
         w = {'program': text, 'host_names': hname}
+        if ast:
+            w['ast_names'] = [list(x) for x in ast]
         res.outcome(f'{site}:{mout[0]}')
         if mout[0] != rout[0]:
             res.violation(f'outcome:{site}:{mout[0]}->{rout[0]}', 'outcome class differs from the reference semantics',
@@ -370,6 +396,10 @@ def work(task):
     res = runner.Result()
     opwrap.install()
     kind = task[0]
+    if kind == 'ast':
+        for ast, text in AST_CASES:
+            check_program(res, text, 'ast_names:' + ast[-1][0], ast=ast)
+        return res
     if kind == 'expr1':
         _, ty, tpl = task
         for vals in product([LEAVES[h] for h in holes(tpl)]):
@@ -414,6 +444,7 @@ def main(tier, seed, t0):
         tasks.append(('expr2', ty, tpl, b['DEPTH2']))
     for tpl in STATEMENTS:
         tasks.append(('stmt', tpl, b['DEPTH2']))
+    tasks.append(('ast',))
     tasks = runner.rotate(tasks, seed)
     total = runner.run_tasks(work, tasks)
     n = total.n
@@ -442,5 +473,5 @@ def main(tier, seed, t0):
 def replay(w):
     res = runner.Result()
     opwrap.install()
-    check_program(res, w['program'], 'replay')
+    check_program(res, w['program'], 'replay', ast=[tuple(x) for x in w['ast_names']] if w.get('ast_names') else None)
     return ('REPRODUCED' if res.viol else 'HOLDS') + f"\n {w['program']!r}\n " + repr({k: v[1][:1] for k, v in res.viol.items()})[:600]
